@@ -44,7 +44,11 @@ var coHotKeys = []string{"pid", "ppid", "comm", "exe", "cwd", "proctitle", "uid"
 	"acct", "id", "op", "tty", "exit", "dev", "saddr", "cmd", "data", "sig", "seresult", "apparmor",
 	"scontext", "tcontext", "tclass", "operation", "new-fs", "old-uid", "xgid", "socket_uid", "key"}
 
-var coIdVals = []string{"0", "0", "1000", "1001", "48", "4294967295", "-1", "unset", "root", "alice", "65534", "007", "1e3"}
+// addresses as daemons write them: the library copies the text, whatever the spelling
+var coAddrVals = []string{"10.1.1.1", "?", "::1", "::ffff:203.0.113.7", "2001:DB8::A1", "0:0:0:0:0:0:0:1", "2001:0db8:0000:0000:0000:0000:0000:00a1", "::10.1.1.1", "010.001.001.001", "fe80::1%eth0", "FE80::1",
+	"localhost", "10.1.1.1 ", "0x0a.1.1.1", "[::1]", "::FFFF:0A01:0101", "1.2.3", "0", ""}
+
+var coIdVals = []string{"0", "0", "1000", "1001", "48", "4294967295", "-1", "unset", "root", "alice", "65534", "007", "1e3", "1", "01", "+1", "daemon", "2", "bin", "lp", "001"}
 var coPathVals = []string{"/tmp/x", "/etc/passwd", "/usr/bin/python3", "/usr/bin/bash", "/usr/bin/sh", "/usr/bin/perl5", "/usr/bin/cat",
 	"/var/log/audit/", "/", "relative/p", "/tmp/with space", "/usr/bin/pythonic"}
 var coTokVals = []string{"x", "yes", "no", "1", "42", "pts0", "ssh", "10.0.0.1", "::1", "host.example", "NORMAL", "PARENT", "UNKNOWN",
@@ -207,7 +211,7 @@ func coGenBody(rng *rand.Rand, kind int, nExtra int) (typ uint16, body string) {
 	default:
 		typ = coOtherTypes[rng.Intn(len(coOtherTypes))]
 		inner := []coKvp{{"op", coPick(rng, []string{"login", "PAM:authentication", "start"})}, {"acct", coPick(rng, coIdVals)}, {"exe", coPick(rng, coPathVals)},
-			{"hostname", coPick(rng, []string{"h1", "?", "10.1.1.1"})}, {"addr", coPick(rng, []string{"10.1.1.1", "?", "::1"})}, {"terminal", coPick(rng, []string{"ssh", "/dev/pts/0"})},
+			{"hostname", coPick(rng, []string{"h1", "?", "10.1.1.1"})}, {"addr", coPick(rng, coAddrVals)}, {"terminal", coPick(rng, []string{"ssh", "/dev/pts/0"})},
 			{"res", coPick(rng, []string{"success", "failed"})}}
 		inner = coMaybeDrop(rng, inner, 0.15)
 		kvs = []coKvp{{"pid", fmt.Sprint(rng.Intn(9))}, {"uid", coPick(rng, coIdVals)}, {"auid", coPick(rng, coIdVals)}, {"ses", coPick(rng, coIdVals)},
